@@ -18,7 +18,7 @@ def ValidSym (s : List Char) : Prop := ∃ c cs, s = c :: cs ∧ isUpper c = tru
 def identTok (s : List Char) : Token := { kind := .ident, text := String.ofList s, num := .nan }
 
 /-- the previous token does not switch the scanner into label or parameter mode -/
-def PrevOk (t : Option Token) : Prop := t = none ∨ ∃ tok, t = some tok ∧ tok.kind = .ident
+def PrevOk (t : Option Token) : Prop := t = none ∨ ∃ tok, t = some tok ∧ tok.kind ≠ .colon ∧ tok.kind ≠ .lcurly ∧ tok.kind ≠ .comma
 
 theorem special_upper (c : Char) (h : isUpper c = true) : special c = none := by
   unfold special
@@ -98,9 +98,9 @@ theorem symbol_step (c : Char) (cs rest : List Char) (s : TS) (hc : s.chars = c 
   have hlast : ({ s with chars := cs ++ rest, value := [c] } : TS).last = s.last := rfl
   rw [hlast]
   have hvalid : identValid s.last = fun c => isLower c || isDigit c || c = '_' := by
-    rcases hp with h | ⟨tok, h, hk⟩
+    rcases hp with h | ⟨tok, h, hk1, hk2, hk3⟩
     · rw [h]; rfl
-    · rw [h]; cases tok with | mk kind text num => simp only at hk; subst hk; rfl
+    · rw [h]; cases tok with | mk kind text num => simp only at hk1 hk2 hk3; cases kind <;> first | rfl | contradiction
   have hrun := identLoop_run (identValid s.last) cs rest (s.chars.length + 1) { s with chars := cs ++ rest, value := [c] } rfl
     (by rw [hvalid]; intro d hd; have := ht d hd; unfold symTail at this; simpa using this)
     (by rw [hvalid]; intro r hh; have := hr r hh; unfold symTail at this; simpa using this)
@@ -110,14 +110,14 @@ theorem symbol_step (c : Char) (cs rest : List Char) (s : TS) (hc : s.chars = c 
     rw [hrun]
     simp only [bind, Except.bind, TS.push]
     simp [identTok, pure, Except.pure]
-  rcases hp with h | ⟨tok, h, hk⟩
+  rcases hp with h | ⟨tok, h, hk1, hk2, hk3⟩
   · rw [h] at hfin ⊢
     exact hfin
   · rw [h] at hfin ⊢
     cases tok with
     | mk kind text num =>
-      simp only at hk; subst hk
-      exact hfin
+      simp only at hk1 hk2 hk3
+      cases kind <;> first | exact hfin | contradiction
 
 /-- **A run of element symbols is tokenized into exactly those symbols.** -/
 theorem tokLoop_symbols (syms : List (List Char)) :
@@ -154,7 +154,7 @@ theorem tokLoop_symbols (syms : List (List Char)) :
       have hne : s.chars.isEmpty = false := by rw [hc']; rfl
       simp only [hne, Bool.false_eq_true, ↓reduceIte, bind, Except.bind, hstep]
       obtain ⟨s', h1, h2⟩ := ih f { chars := rest.flatten, toks := identTok (c :: cs) :: s.toks, value := [] } rfl rfl
-        (Or.inr ⟨identTok (c :: cs), rfl, rfl⟩) (fun y hy => hall y (List.mem_cons_of_mem _ hy)) (by simp only [List.length_cons] at hf; omega)
+        (Or.inr ⟨identTok (c :: cs), rfl, by simp [identTok], by simp [identTok], by simp [identTok]⟩) (fun y hy => hall y (List.mem_cons_of_mem _ hy)) (by simp only [List.length_cons] at hf; omega)
       exact ⟨s', h1, by rw [h2]; simp⟩
 
 theorem flatten_length_ge (syms : List (List Char)) (h : ∀ x ∈ syms, ValidSym x) : syms.length ≤ syms.flatten.length := by
